@@ -142,3 +142,10 @@ def exact_plain(serial, n, lead):
     alpha = 'abcdefghijklmnopqrstuvwxyz0123456789'
     n = max(4, n)
     return (alpha[lead % 26] + b36(serial).lower() + _fill(alpha, n, serial))[:n]
+
+
+def exact_iso_dir(serial, total_len, lead):
+    """Directory identifier of exactly total_len characters (4 <= total_len <= 8 is legal at every level)."""
+    n = max(4, total_len)
+    core = D1[lead % 37] + b36(serial)
+    return (core + _fill(D1, n, serial))[:n]
